@@ -206,9 +206,11 @@ class ScopeMetrics:
         *args: Any,
         exception: BaseException | None = None,
     ) -> None:
+        # prefix is not a part of the message format - escape it when formatting will be applied
+        prefix: str = self._logger_prefix.replace("%", "%%") if args else self._logger_prefix
         self._logger.log(
             level,
-            f"{self._logger_prefix} {message}",
+            f"{prefix} {message}",
             *args,
             exc_info=exception,
         )
